@@ -191,7 +191,7 @@ PROPS = {
     "C11": {"module": "Asts.Props.C11", "extra_modules": ["Asts.Props.Glue2"], "assumptions": ["C11_deleting (store half): names are unique in the revision store (the monitor looks every input revision up by name; example exDup in Props/C11.lean)", "'resumes and converges to the same result as if it had never been paused': a paused round changes nothing in the API state (paused_round), so un-pausing resumes from the same state and C02 applies"], "runs": [sy(proj=proj_sync_c11)], "rule": SY_RULE},
     "C13": {"module": "Asts.Props.C13", "assumptions": ["headline C13_monitor_true_on_model: store names distinct, pod names distinct, no colon in a store or pod name (Kubernetes names never contain one)", "revisionHistoryLimit present (the CRD defaults it; nil is the modelled panic of truncateHistory, unreachable for admitted objects)"], "runs": [sy(proj=proj_sync_history)], "rule": SY_RULE},
     "C03": {"module": "Asts.Props.C03", "extra_modules": ["Asts.Props.Glue", "Asts.Props.EditAlgebra"], "runs": [rc(proj=proj_deletes), sy(quick=5000, thorough=60000, proj=proj_sync_pods)], "rule": RC_RULE + SY_L1},
-    "C04": {"module": "Asts.Props.C04", "extra_modules": ["Asts.Props.Glue2"], "runs": [rc(proj=proj_creates), sy(quick=5000, thorough=60000, proj=proj_sync_pods)], "rule": RC_RULE + SY_L1},
+    "C04": {"module": "Asts.Props.C04", "extra_modules": ["Asts.Props.Glue2", "Asts.Props.EditAlgebra"], "runs": [rc(proj=proj_creates), sy(quick=5000, thorough=60000, proj=proj_sync_pods)], "rule": RC_RULE + SY_L1},
     "C05": {"module": "Asts.Props.C05", "extra_modules": ["Asts.Props.Glue"], "runs": [rc(proj=proj_create_delete), sy(quick=5000, thorough=60000, proj=proj_sync_pods)], "rule": RC_RULE + SY_L1},
     "C07": {"module": "Asts.Props.C07", "runs": [rc(proj=proj_create_delete), sy(quick=5000, thorough=60000, proj=proj_sync_pods)], "rule": RC_RULE + SY_L1},
     "C12": {"module": "Asts.Props.C12", "extra_modules": ["Asts.Props.Glue2"], "runs": [rc(proj=proj_status), sy(quick=6000, proj=lambda c, o: o.get("status")), wo(quick=1200, proj=proj_world_final)],
